@@ -29,10 +29,33 @@ def emit(n):
 
 POLL = ["poll"]
 QST = ["q", "status"]
+SUB = ["sub"]
+
+# kind statustake: what sits between complete_status() and the probe, and the source in front of it
+CUTTERS_QUICK = (["id"], ["take", "0"], ["take", "1"], ["take", "2"], ["first"],
+                 ["takewhile", "lt2"], ["takewhilei", "lt2"])
+CUTTERS_MORE = (["take", "3"], ["takewhile", "lt3"], ["takewhile", "false"], ["takewhilei", "gt1"],
+                ["takewhile", "true"])
 
 
 def mk_case(kind, flavor, events, meta):
     return Case("convert", flavor, [("kind", [kind]), ("model", [MODEL])], events, meta)
+
+
+def mk_take_case(flavor, src, cutter, events, meta=None):
+    return Case("convert", flavor, [("kind", ["statustake"]), ("src", [src]), ("cutter", [cutter]),
+                                    ("model", [MODEL])], events, meta or {"kind": "statustake"})
+
+
+def mk_wait_case(src, cutter, pre, term, flavor="threads"):
+    return Case("convert", flavor, [("kind", ["statuswait"]), ("src", [src]), ("cutter", [cutter]),
+                                    ("pre", list(pre)), ("model", [MODEL])], [["term", term]],
+                {"kind": "statuswait-cut"})
+
+
+def src_head(case):
+    f = case.field("src")
+    return f[0][0] if f else None
 
 
 def source_history(case, upto=None):
@@ -40,6 +63,9 @@ def source_history(case, upto=None):
     (the subject swallows everything after its first terminal)."""
     items, term = [], None
     evs = case.events if upto is None else case.events[:upto]
+    if src_head(case) == "iter":
+        # from_iter: the source runs to its end (and completes) inside the subscription
+        return items, (("c", None) if any(ev[0] == "sub" for ev in evs) else None)
     for ev in evs:
         if ev[0] != "emit" or term is not None:
             continue
@@ -90,13 +116,18 @@ def stream_expected(items, term):
 class C14(Prop):
     pid = "C14"
     lean_module = "RxModel.Props.C14"
-    extra_modules = ("RxModel.Props.C14T",)
+    extra_modules = ("RxModel.Props.C14T", "RxModel.Props.C14K")
     design_ref = "DESIGN.md §6 C14, §7 findings 2, 3"
     rule = ("bounded-exhaustive: kind in {to_future, to_stream, collect+to_future, complete_status} x "
             "flavor {local, threads} x source script (0..k distinct items, then complete / error / neither; "
             "k = 3 quick, 4 thorough) x every subset of the gaps before/between/after the source events "
             "receiving one poll (thorough: 0..2 polls per gap for k <= 3) + a tail of polls long enough to "
             "drain; plus post-terminal source events and repeated items; status: flag queries in every gap. "
+            "statustake: source {hot Subject, create (producer calls the Subscriber), from_iter(1..=k)} x cutter "
+            "{none, take 0..2, first, take_while/_inclusive lt2; thorough: + take 3, lt3, false, true, gt1} between "
+            "complete_status() and the probe x flavor x script (0..3 items, then complete / error / neither, "
+            "post-terminal calls) x every subset of the gaps receiving a poll, flag queries in alternate gaps; "
+            "statuswait with a cutter: items that let the cutter finish, THEN the waiter parks, then the terminal. "
             "Non-trivial = some poll was Ready / some flag query was answered; distinct = distinct case text.")
     assumptions = [
         "sequential histories only: source calls and polls happen on one thread (the waiter/producer race of "
@@ -104,9 +135,14 @@ class C14(Prop):
         "StatusFuture is private: `poll` of kind status is `is_closed()` followed by `wait_for_end` when closed",
         "a future is not polled again after Ready, a stream not after None: such polls are generated but not judged",
         "to_future on [item.., error]: MultipleValues and the error are both accepted (DESIGN §7 decision)",
+        "statustake: 'the source has terminated' = the hot subject / the producer of create has been called with its "
+        "first terminal, from_iter has been subscribed; the oracle judges the flag queries and the polls after that "
+        "point whatever the downstream cutter did",
     ]
     modelled_not_verified = ("src/ops/{future,stream,collect,complete_status}.rs, the Subject/Subscriber slot and "
-                             "futures-channel's unbounded mpsc are hand transcriptions (RxModel/Conv/Convert.lean), "
+                             "futures-channel's unbounded mpsc are hand transcriptions (RxModel/Conv/Convert.lean); take / take_while / "
+                             "Subject's is_finished filter / create / from_iter below complete_status: "
+                             "RxModel/Conv/StatusTake.lean, "
                              "validated only on the generated cases")
 
     def corpus(self):
@@ -162,6 +198,7 @@ class C14(Prop):
                         if kind == "status":
                             evs.append(QST)
                         out.append(mk_case(kind, flavor, evs, {"kind": kind}))
+        out += self.take_cases(tier, rng)
         # random longer histories
         n = 400 if tier == "quick" else 4000
         for _ in range(n):
@@ -190,9 +227,128 @@ class C14(Prop):
             mixed += [c for c in tup if c is not None]
         return mixed
 
+    def take_cases(self, tier, rng):
+        """complete_status() whose downstream can finish before the source does."""
+        out = []
+        cutters = list(CUTTERS_QUICK) + (list(CUTTERS_MORE) if tier != "quick" else [])
+        kmax = 3 if tier == "quick" else 4
+        scripts = []
+        for k in range(kmax + 1):
+            for term in (None, "c", E(7)):
+                scripts.append(([N(i + 1) for i in range(k)], term, []))
+        for term in ("c", E(7)):
+            for tail in ([N(9)], ["c"], [E(8)], [N(9), E(8), "c"]):
+                scripts.append(([N(1), N(2)], term, tail))
+        scripts.append(([N(2), N(2), N(1)], "c", []))
+        scripts.append(([N(0), N(-1), N(5)], E(-3), []))
+        for src in (["hot"], ["create"]):
+            for cutter in cutters:
+                for flavor in ("local", "threads"):
+                    for items, term, tail in scripts:
+                        evs_src = [emit(n) for n in items] + ([emit(term)] if term else []) + [emit(n) for n in tail]
+                        gaps = len(evs_src) + 1
+                        if gaps <= 6:
+                            placements = list(itertools.product((0, 1), repeat=gaps))
+                        else:
+                            placements = [tuple(rng.choice((0, 1)) for _ in range(gaps)) for _ in range(24)]
+                            placements += [(0,) * gaps, (1,) * gaps]
+                        for counts in placements:
+                            evs = []
+                            for g in range(gaps):
+                                evs += [POLL] * counts[g]
+                                if (sum(counts) + g) % 2 == 0:
+                                    evs.append(QST)
+                                if g < len(evs_src):
+                                    evs.append(evs_src[g])
+                            evs += [POLL, QST]
+                            out.append(mk_take_case(flavor, src, cutter, evs))
+        # from_iter: polls / queries before and after the subscription; a second `sub` and stray emits do nothing
+        for k in ((0, 1, 2, 3, 5) if tier == "quick" else (0, 1, 2, 3, 4, 5, 8)):
+            for cutter in cutters:
+                for flavor in ("local", "threads"):
+                    for pre in ([], [POLL], [QST], [POLL, QST], [emit(N(4)), POLL]):
+                        for post in ([POLL, QST], [QST, POLL, SUB, QST], [emit("c"), QST, POLL]):
+                            out.append(mk_take_case(flavor, ["iter", str(k)], cutter, pre + [SUB] + post))
+                    out.append(mk_take_case(flavor, ["iter", str(k)], cutter, [POLL, QST, emit("c"), POLL, QST]))
+        # the waiter is parked AFTER the cutter has finished (or not), then the terminal arrives
+        wait_cutters = (["id"], ["take", "1"], ["take", "2"], ["takewhile", "lt2"])
+        for cutter in wait_cutters:
+            for pre in ([], [N(1), N(2)]):
+                for term in ("c", E(3)):
+                    out.append(mk_wait_case(["hot"], cutter, pre, term))
+                for term in ("c", E(3), N(5)):
+                    out.append(mk_wait_case(["create"], cutter, pre, term))
+        for cutter in (["id"], ["take", "0"], ["take", "1"], ["take", "2"], ["takewhilei", "lt2"]):
+            for k in (0, 3):
+                out.append(mk_wait_case(["iter", str(k)], cutter, [], "c"))
+        # random longer histories
+        n = 300 if tier == "quick" else 3000
+        for _ in range(n):
+            src = rng.choice((["hot"], ["create"], ["create"], ["iter", str(rng.randint(0, 6))]))
+            cutter = rng.choice(cutters)
+            evs = []
+            for _ in range(rng.randint(1, 12)):
+                r = rng.random()
+                if r < 0.3:
+                    evs.append(POLL)
+                elif r < 0.7:
+                    evs.append(emit(N(rng.choice([0, 1, 2, 3, -1]))))
+                elif r < 0.78:
+                    evs.append(emit("c"))
+                elif r < 0.86:
+                    evs.append(emit(E(rng.choice([3, 4]))))
+                elif r < 0.92:
+                    evs.append(SUB)
+                else:
+                    evs.append(QST)
+            evs += [POLL, QST]
+            out.append(mk_take_case(rng.choice(("local", "threads")), src, cutter, evs,
+                                    {"kind": "random-statustake"}))
+        return out
+
     # --------------------------------------------------------------- oracle
+    def oracle_take(self, case, lines):
+        """statustake, on the implementation's output alone: once the source's first terminal has been emitted
+        `q status` says closed with the right completed / error bits and `poll` is Ready; before it the status is
+        running and `poll` Pending — whatever the cutter did to the downstream."""
+        plain = case.field("cutter")[0][0] == "id"
+        for k, ev in enumerate(case.events):
+            body = lines.get(k)
+            if body is None:
+                if any(b == "PANIC" for b in lines.values()):
+                    return {"kind": "panic", "event": k, "detail": "case stopped by a panic"}
+                return {"kind": "missing-line", "event": k, "detail": ""}
+            if body == "PANIC":
+                return {"kind": "panic", "event": k, "detail": "panic inside the library"}
+            items, term = source_history(case, k)
+            if ev[0] == "emit":
+                if plain and src_head(case) != "iter":
+                    exp = ""
+                    if term is None:
+                        n = ev[2]
+                        exp = "C" if n == "c" else ("E" + n[1] if n[0] == "e" else "N" + show_val(n[1]))
+                    if body != "o=" + exp:
+                        return {"kind": "status-downstream", "event": k, "detail": f"got {body} want o={exp}"}
+                continue
+            if ev[0] == "sub":
+                continue
+            if ev[0] == "q":
+                want = "closed=%d completed=%d error=%d" % (term is not None, bool(term and term[0] == "c"),
+                                                            bool(term and term[0] == "e"))
+                if body != want:
+                    return {"kind": "status-flag", "event": k,
+                            "detail": f"source terminal {term}: got {body} want {want}"}
+                continue
+            want = "poll=Ready" if term is not None else "poll=Pending"
+            if body != want:
+                kd = "pending-after-termination" if term is not None else "ready-before-termination"
+                return {"kind": kd, "event": k, "detail": f"source terminal {term}: got {body}"}
+        return None
+
     def oracle(self, case, lines, model_lines=None):
         kind = case.field("kind")[0]
+        if kind == "statustake":
+            return self.oracle_take(case, lines)
         if kind in ("statusrace", "statuswait"):
             for k in range(len(case.events)):
                 if lines.get(k) != "wait=returned":
@@ -275,7 +431,8 @@ class C14(Prop):
                    for b in lines.values())
 
     def signature(self, case, failure):
-        return f"{failure['kind']}|convert|{case.field('kind')[0]}"
+        src = src_head(case)
+        return f"{failure['kind']}|convert|{case.field('kind')[0]}" + (f"/{src}" if src else "")
 
     def shrink_candidates(self, case):
         cands = []
@@ -287,6 +444,23 @@ class C14(Prop):
             c = case.copy()
             del c.events[i]
             cands.append(c)
+        # a smaller cutter / iterator / fewer items before the waiter parks
+        cut = case.field("cutter")
+        if cut and cut[0][0] == "take" and int(cut[0][1]) > 1:
+            c = case.copy()
+            c.set_field("cutter", [["take", str(int(cut[0][1]) - 1)]])
+            cands.append(c)
+        src = case.field("src")
+        if src and src[0][0] == "iter" and int(src[0][1]) > 0:
+            c = case.copy()
+            c.set_field("src", [["iter", str(int(src[0][1]) - 1)]])
+            cands.append(c)
+        pre = case.field("pre")
+        if pre:
+            for i in range(len(pre)):
+                c = case.copy()
+                c.set_field("pre", pre[:i] + pre[i + 1:])
+                cands.append(c)
         return cands
 
     def extra_coverage(self, cases, impl):
